@@ -249,47 +249,39 @@ def run(F, R, tier):
                 continue
             body = a["body"]
             KEEP = ("define", "compile_let_stmt", "compile_function_literal", "compile_expression", "emit")
-            ib = H.inline_helpers(F, body, skip=lambda c: H.last(c) in KEEP)
-            nb = H.unlet(ib)
+            ib = H.beta(H.split_tuple_lets(H.inline_helpers(F, body, skip=lambda c: H.last(c) in KEEP)))
+            nb = H.beta(H.unlet(ib))
             name = "stmt.name.value" if var[0] == "Let" else "func.name"
             # the one definition: symtab.define(<this statement's name>, <the current scope's block depth>)
             defs = {DT.canon_text(c) for c in H.walk(nb) if c.get("k") == "mcall" and (c.get("callee") or "").endswith("SymbolTable::define")}
             DEF = "self.symtab.define(%s, self.scopes[self.scope_index].scope_depth)" % name
             okd = defs == {DEF}
             ems = [c for c in H.walk(nb) if c.get("k") == "mcall" and c["m"] == "emit" and (H.last(H.ctor_of(H.strip(c["args"][0])) or "")).startswith("Define")]
-            oke = len(ems) == 2 and all(DT.canon_text(c["args"][1]) == "[%s.index]" % DEF for c in ems)
-            # which Define: by the symbol's own scope
-            holders = sorted([x for x in H.walk(nb) if x.get("k") in ("if", "match") and not H.is_try(x) and sum(1 for c in H.walk(x) if any(c is e for e in ems)) == 2], key=H._size)
-            oks_ = False
-            sdet = "no conditional around the two Define emits"
-            if holders:
-                hn = holders[0]
-                got = {}
-                if hn["k"] == "if":
-                    be = H.bool_expr(hn["c"])
-                    neg = be[0] == "not"
-                    at = (be[1] if neg else be)
-                    at = at[1] if at[0] == "atom" else ""
-                    eq = DT.canon_text(hn["c"])
-                    m_ = re.fullmatch(r"\(?%s\.scope (==|!=) SymbolScope::(Global|Local)\)?" % re.escape(DEF), eq)
-                    if m_:
-                        t_is = (m_.group(2) if m_.group(1) == "==" else {"Global": "Local", "Local": "Global"}[m_.group(2)])
-                        e_is = {"Global": "Local", "Local": "Global"}[t_is]
-                        got = {t_is: [H.last(H.ctor_of(H.strip(c["args"][0]))) for c in ems if any(c is y for y in H.walk(hn["t"]))],
-                               e_is: [H.last(H.ctor_of(H.strip(c["args"][0]))) for c in ems if hn.get("e") is not None and any(c is y for y in H.walk(hn["e"]))]}
-                    sdet = eq
-                else:
-                    if DT.canon_text(hn["scrut"]) == DEF + ".scope":
-                        for arm in hn["arms"]:
-                            vs = {H.last(v) for v in H.pat_variants(arm["pat"])}
-                            which = [H.last(H.ctor_of(H.strip(c["args"][0]))) for c in ems if any(c is y for y in H.walk(arm["body"]))]
-                            for v in vs:
-                                got.setdefault("Global" if v == "Global" else "Local", []).extend(which)
-                    sdet = "match " + DT.canon_text(hn["scrut"])
-                oks_ = got.get("Global") == ["DefineGlobal"] and set(got.get("Local") or []) == {"DefineLocal"}
-                sdet += " → %s" % got
+            # ... or one emit whose opcode is chosen first (`let op = if .. {DefineGlobal} else {DefineLocal}; emit(op, ..)`)
+            ems1 = [c for c in H.walk(nb) if c.get("k") == "mcall" and c["m"] == "emit" and c.get("args") and not (H.last(H.ctor_of(H.strip(c["args"][0])) or "")) and
+                    any("Define" in (H.ctor_of(x) or "") for x in H.walk(c["args"][0]))]
+            all_ems = ems + ems1
+            oke = (len(ems) == 2 or (not ems and len(ems1) == 1)) and all(DT.canon_text(c["args"][1]) == "[%s.index]" % DEF for c in all_ems)
+            # which Define: by the symbol's own scope — the decision table of the conditional around the emits (or of the opcode
+            # expression of the single emit)
+            if ems1 and not ems:
+                target = ems1[0]["args"][0]
+            else:
+                holders = sorted([x for x in H.walk(nb) if x.get("k") in ("if", "match") and not H.is_try(x) and sum(1 for c in H.walk(x) if any(c is e for e in ems)) == 2], key=H._size)
+                target = holders[0] if holders else None
+            oks_, sdet = False, "no conditional around the Define emits"
+            if target is not None:
+                rows, why = DT.table_expr(F, target, inline=False)
+                sdet = why
+                if rows is not None:
+                    rows2 = [(e_, "DefineGlobal" if "DefineGlobal" in str(r_) else ("DefineLocal" if "DefineLocal" in str(r_) else str(r_)[:30])) for e_, r_ in rows]
+                    keys = {k_ for e_, _ in rows2 for k_ in e_}
+                    oks_, sdet = DT.check(rows2, [(r"^%s\.scope : SymbolScope$" % re.escape(DEF), "scope")], {"scope": ("Global", "Local", "Free", "BuiltinFn", "BuiltinVar", "Function")},
+                                          lambda e_: "DefineGlobal" if e_["scope"] == "Global" else "DefineLocal")
+                    oks_ = oks_ and bool(keys)
             # the symbol is defined before the value is compiled (recursive functions), the Define follows the value
             seq = []
+            lets_ib = {x["pat"]["id"]: x["init"] for x in H.walk(ib) if x.get("k") == "let" and x.get("pat", {}).get("k") == "bind" and x.get("init") is not None}
             for c in E.eval_order(ib):
                 if c.get("k") not in ("call", "mcall"):
                     continue
@@ -298,7 +290,8 @@ def run(F, R, tier):
                     seq.append("define")
                 elif nm in ("compile_let_stmt", "compile_function_literal"):
                     seq.append("value")
-                elif nm == "emit" and (H.last(H.ctor_of(H.strip(c["args"][0])) or "")).startswith("Define"):
+                elif nm == "emit" and ((H.last(H.ctor_of(H.strip(c["args"][0])) or "")).startswith("Define") or
+                                       any("Define" in (H.ctor_of(x) or "") for x in H.walk(lets_ib.get(H.local_id(H.strip(c["args"][0])), c["args"][0])))):
                     if seq[-1:] != ["emit"]:
                         seq.append("emit")
             R.ob("slot-provenance", "Statement::%s: the Define* operand is the index of the symbol defined for this name, global/local by the symbol's scope" % var[0],
